@@ -308,6 +308,34 @@ func c36(c *an.Check) {
 				}},
 			}})
 	}
+	// converse for idle: every way out of the idle callback's critical section either saw "state unchanged" or recorded
+	// and queued the change — an early exit (e.g. out of the error scan) must not swallow an idle transition
+	if g := find("Idle"); g != nil {
+		c.Gate(an.GateSpec{Rule: "MUSTCALL", Construct: "rpc/access idle callback reports every idle state change", Fn: g,
+			Sink: func(s *an.State, ins ssa.Instruction) bool { _, ok := ins.(*ssa.Return); return ok },
+			Reqs: []an.Req{{Name: "idle state unchanged, or the change was recorded and queued", Holds: func(s *an.State, at ssa.Instruction) bool {
+				if s.AnyFact(func(s *an.State, x, y ssa.Value, r an.Rel) bool {
+					if r != an.EQ || x.Type().String() != "bool" {
+						return false
+					}
+					_, xp := s.Canon(x).(*ssa.Parameter)
+					_, yp := s.Canon(y).(*ssa.Parameter)
+					return xp != yp
+				}) {
+					return true
+				}
+				recorded := s.Executed(at, func(i ssa.Instruction) bool {
+					st, ok := i.(*ssa.Store)
+					if !ok {
+						return false
+					}
+					cell := cellOfAddr(p, st.Addr)
+					return cell != nil && guarded[cell] && st.Val.Type().String() == "bool"
+				})
+				queued := s.Executed(at, func(i ssa.Instruction) bool { _, ok := fieldStoreTrue(i, "Idle"); return ok })
+				return recorded && queued
+			}}}})
+	}
 	// R4 on the send loop
 	waitDiscipline(c, "rpc/access LookupRpcService waits", lk, func(call *ssa.Call) bool {
 		pv, ok := call.Call.Value.(*ssa.Parameter)
